@@ -18,6 +18,18 @@ func init() {
 				Run: ruleErrPropagate},
 			{ID: "C08.commit-after-success", Floor: 12, Clause: "in every Next/Peek of a stream wrapper a store to the receiver's state is dominated by a tested outcome (nil or End) of a fallible call, or is followed by no fallible call on any path (so a failed wait leaves the state a retry needs untouched); the only store allowed before the test is the simultaneous assignment of the failing call's own result",
 				Run: func(c *Ctx, r *R) { ruleCommitAfterSuccess(c, r, "C08") }},
+			{ID: "C08.no-discarded-pull", Floor: 22, Clause: "in every Next/Peek of stream and parallel wrappers an item taken from the source, the reorder heap or a data channel is used on every path on which it was obtained: a Next that fails (e.g. on its context) after taking an item would lose it",
+				Run: func(c *Ctx, r *R) { ruleNoDiscardedPull(c, r, "stream", "parallel") }},
+			{ID: "C08.batch-error-delivered", Floor: 2, Clause: "both places where batchStream.Next sees batchC closed return the source's error if there is one and End only otherwise",
+				Run: func(c *Ctx, r *R) {
+					sub := &R{rule: r.rule, c: c}
+					ruleBatchDelivery(c, sub)
+					for _, o := range sub.obs {
+						if strings.Contains(o.Key, "closed-block") || strings.Contains(o.Key, "err-read-after-close") || strings.Contains(o.Key, "err-writer") {
+							r.obs = append(r.obs, o)
+						}
+					}
+				}},
 			{ID: "C08.ctx-arm-pure", Floor: 3, Clause: "in batchStream.Next, pipeStream.Next, chanStream.Next and parallel.mapStream.Next the ctx.Done() arm returns ctx.Err() without consuming from the data channel or touching the receiver",
 				Run: ruleCtxArmPure},
 		},
@@ -350,6 +362,31 @@ func ruleCommitAfterSuccess(c *Ctx, r *R, prefix string) {
 						if call, ok := ex.Tuple.(*ssa.Call); ok {
 							if fc, _ := fallibleCall(call); fc != nil {
 								r.discharged(key, st.Pos(), "simultaneous assignment of the call's own result (overwritten before it is read again)")
+								return
+							}
+						}
+					}
+					// (0) a store that happens only on the FAILURE edge of a fallible call changes state exactly when the
+					// caller is told to retry
+					for _, g := range guardsOf(b) {
+						cf, ok := g.asCmp()
+						if !ok {
+							continue
+						}
+						for _, fc := range fall {
+							_, e := fallibleCall(fc)
+							if e == nil || cf.x != e || !isNilConst(cf.y) || cf.op != token.NEQ {
+								continue
+							}
+							// ... unless the same path also established e == End (a benign outcome)
+							benign := false
+							for _, g2 := range guardsOf(b) {
+								if c2, ok := g2.asCmp(); ok && c2.x == e && c2.op == token.EQL && strings.HasSuffix(path(c2.y), "End") {
+									benign = true
+								}
+							}
+							if !benign {
+								r.violated(key, st.Pos(), "the receiver's "+fld+" is changed on the failure path of "+calleeName(&fc.Call)+": a Next that fails while waiting must cost nothing, but here buffered state is modified exactly when the caller is told to retry")
 								return
 							}
 						}
